@@ -102,18 +102,40 @@ def replay(rec, case):
         return
     call = {k: i[k] for k in ("cls", "cc", "seed", "use_registry") if k in i}
     call["pins"] = i.get("pins", {})
+    if "touch" in i.get("origin", ""):
+        import random
+        from .c08 import touch
+        before = evaluate(call)
+        touch(call["cc"], random.Random(0))
+        after = evaluate(call)
+        if before != after:
+            rec.fail("differs_after_other_use|replay", "same_seed_same_result", {**call, "origin": "touch"}, before, after)
     check_call(rec, call, "replay")
 
 
 def draw_pins(rng, cc, p=0.3):
+    """Pinned components: field-sized and conforming; half of the time a pinned bank/branch code is taken from a bank the
+    registry lists for the country (a pin 'equal to a listed bank's field' is what a user of the registry mode pins)."""
     o, g = oracle(), gen()
     pins = {}
     cl = g.classes(cc)
+    listed = reginfo()["per_cc"].get(cc) or []
+    sample = rng.choice(listed).get("bank_code") if listed else None
     for k in pinnable(cc):
         if rng.random() < p:
             a, e = o.positions(cc)[k]
-            pins[k] = conforming(rng, cl[a:e], e - a)
+            v = conforming(rng, cl[a:e], e - a)
+            if sample and k == "bank_code" and rng.random() < 0.5 and len(sample) >= e - a:
+                cand = sample[:e - a]
+                if all(ch in gens_class(cl[a + i]) for i, ch in enumerate(cand)):
+                    v = cand
+            pins[k] = v
     return pins
+
+
+def gens_class(letter):
+    from ..gens import _CLASS_CHARS
+    return _CLASS_CHARS[letter]
 
 
 def shard_country(arg):
@@ -123,6 +145,20 @@ def shard_country(arg):
     rec = Rec()
     n = 14 if tier == "quick" else 400
     tags = {"ok": 0, "overflow": 0, "crash": 0}
+    # a few draws in the fresh worker state, then other uses of the country (parse, accessors, lookups), then the rest:
+    # "identical on every call" includes calls made after the country has been used otherwise
+    first = [{"cls": cls, "cc": cc, "seed": sd, "use_registry": ur, "pins": {}}
+             for cls in ("IBAN", "BBAN") for ur in (True, False) for sd in (0, 1)]
+    before = [evaluate(c) for c in first]
+    if cc:
+        from .c08 import touch
+        touch(cc, rng)
+    after = [evaluate(c) for c in first]
+    for c, a, b in zip(first, before, after):
+        if a != b:
+            rec.fail(f"differs_after_other_use|{cc}", "same_seed_same_result", {**c, "origin": "touch"}, a, b)
+        check_call(rec, c, "after-touch")
+        rec.case("after-touch", json.dumps(c, sort_keys=True))
     for cls in ("IBAN", "BBAN"):
         for use_registry in (True, False):
             for j in range(n if cls == "IBAN" else max(3, n // 4)):
@@ -215,5 +251,5 @@ def run(ctx):
     ctx.rec.classes["cross-process-comparisons"] += len(batch) * len(hs)
     ctx.extra["hash_seeds"] = hs
     ctx.rec.sample("cross-process", {"batch_size": len(batch), "first": batch[0], "hashseeds": hs})
-    ctx.require_classes("IBAN-registry-pinned-ok", "IBAN-noregistry-pinned-ok", "IBAN-registry-free-ok", "BBAN-registry-free-ok",
+    ctx.require_classes("after-touch", "IBAN-registry-pinned-ok", "IBAN-noregistry-pinned-ok", "IBAN-registry-free-ok", "BBAN-registry-free-ok",
                         "hyp-pinned-ok", "cross-process-comparisons", *[f"ok-{cc or 'ANY'}" for cc in ccs])
